@@ -236,6 +236,14 @@ func runJobs(workDir string, binPlain, binRace string, specs []batchSpec, tier s
 			if to == 0 {
 				to = 10 * time.Minute
 			}
+			// VERIF_MAX_CHILD_SECONDS caps every child's watchdog (used when the seeded-change matrix is
+			// re-run: a change that makes children hang should cost minutes, not the full watchdog). The
+			// registered commands never set it.
+			if v := os.Getenv("VERIF_MAX_CHILD_SECONDS"); v != "" {
+				if n, err := strconv.Atoi(v); err == nil && n > 0 && time.Duration(n)*time.Second < to {
+					to = time.Duration(n) * time.Second
+				}
+			}
 			args := []string{"-s", "QUIT", "-k", "20", fmt.Sprintf("%d", int(to.Seconds())), bin,
 				"-test.run", "^" + j.spec.Test + "$", "-test.timeout", "0", "-test.count", "1"}
 			cmd := exec.Command("timeout", args...)
